@@ -138,8 +138,8 @@ pub fn generate(prop: &str, rng: &mut Rng, plan: &mut Plan, index: u64) {
         plan.knobs.env_reaps = 1;
         if rng.chance(2, 3) {
             plan.knobs.faults.bystanders = true;
-            plan.knobs.env_spawns = 1 + rng.below(3) as u32;
-            plan.knobs.pid_span = 4;
+            plan.knobs.env_spawns = 1 + rng.below(4) as u32;
+            plan.knobs.pid_span = 2 + rng.below(2) as i32;
         }
         plan.knobs.batch = "faulty".into();
     }
